@@ -89,6 +89,15 @@ public:
     bool matches_flag(PDUType flag) const {
        return flag == pdu_flag || Dot11::matches_flag(flag);
     }
+
+    /**
+     * \brief Clones this PDU.
+     *
+     * \sa PDU::clone
+     */
+    Dot11Control* clone() const {
+        return new Dot11Control(*this);
+    }
 };
 
 /**
